@@ -286,8 +286,11 @@ def judge_files(ctx, recs):
         blank_single = any(len(row) == 1 and row[0] != '' and row[0].strip(' \t') == '' for row in rows)
         lead_blank = any(row and row[0][:1] in (' ', '\t') and not needs_quote(row[0]) for row in rows)
         bad_char = any(c == '\x00' or 0xD800 <= ord(c) <= 0xDFFF for row in rows for f in row for c in f)
+        # the text starts with U+FEFF (read_csv strips a leading byte order mark; audit 4, A6): CsvText.bom_ok
+        lead_bom = bool(rows and rows[0] and rows[0][0][:1] == '\ufeff' and not needs_quote(rows[0][0]))
         # the model's hypotheses are what the harness thinks they are
-        if bool(ws0) != (not has_cr and not blank_single and all(rows) and not lead_blank and not bad_char) \
+        if bool(ws0) != (not has_cr and not blank_single and all(rows) and not lead_blank and not bad_char
+                         and not lead_bom) \
                 or bool(ws1) != (bool(ws0) and not has_hash):
             ctx.violation(f'{r["kind"]}: well_shaped flags {ws0} {ws1} unexpected for {rows!r}',
                           dict(rec, **{'class': 'corr:CsvText.well_shaped'}), no_input=True)
@@ -299,6 +302,15 @@ def judge_files(ctx, recs):
         # (b) the tokenizer of pandas on the written file == csv_parse
         if not text_ok:
             pass                # the reader is compared on files the model predicts
+        elif lead_bom and not r['bodies']:
+            # the excluded input is exactly where the real reader differs from the model of the tokenizer: it strips the BOM
+            real = raw_read(r['text'], None, max(len(x) for x in rows) + 2)
+            want_real = [strip_row([f for f in row]) for row in rows]
+            want_real[0][0] = want_real[0][0][1:]
+            ctx.dist('written file', 'leading BOM: excluded by well_shaped; pandas strips it')
+            if real != want_real or r['user'] == rows:
+                ctx.violation(f'{r["kind"]}: a leading U+FEFF was expected to be stripped by read_csv: raw {real!r} user {r["user"]!r}',
+                              dict(rec, **{'class': 'corr:CsvText.bom_ok'}), no_input=True)
         elif r.get('chunk_case') and lead_blank:
             ctx.dist('written file', 'reader correspondence skipped (leading blanks on a chunk boundary: F32)')
         elif not backtrack_quirk(r['text']):
@@ -332,6 +344,8 @@ def judge_files(ctx, recs):
                 continue
             if blank_single and not has_cr and not has_hash:
                 continue        # a one-column table, not a shape blob_to_csv produces: excluded (assumption)
+            if lead_bom and not r['bodies'] and not has_cr and not has_hash:
+                continue        # a text that starts with U+FEFF: excluded by well_shaped (assumption); blob_to_csv's files start with '#'
             ctx.violation(f'{r["kind"]}: pd.read_csv(comment="#") loses fields: {r["user"]!r} for {rows!r}',
                           dict(rec, **{'class': cls}))
 
@@ -377,6 +391,11 @@ def table_cases(ctx):
     scratch = ctx.scratch / 'csvtext'
     scratch.mkdir(exist_ok=True)
     cases = [gen_table(rng) for _ in range(n)]
+    # audit 4, A6: a table whose text starts with U+FEFF (excluded by well_shaped: the reader strips it), and the two
+    # neighbours that are admitted (the field is quoted; the BOM is not at the start of the text)
+    cases += [{'header': ['\ufeffid', 'n'], 'cols': [{'kind': 'str', 'values': ['c']}, {'kind': 'str', 'values': ['a']}], 'nrows': 1},
+              {'header': ['\ufeff,id', 'n'], 'cols': [{'kind': 'str', 'values': ['c']}, {'kind': 'str', 'values': ['a']}], 'nrows': 1},
+              {'header': ['id', '\ufeffn'], 'cols': [{'kind': 'str', 'values': ['\ufeffc']}, {'kind': 'str', 'values': ['a']}], 'nrows': 1}]
     floats = []
     for case in cases:
         for col in case['cols']:
@@ -765,10 +784,16 @@ def run_part(ctx):
                  'iterations, tiny, large (to 2^1023), dyadic sums, negatives and -0.0; non-trivial = table with >= 2 '
                  'columns, >= 1 row and a quoted field / every double / text with >= 1 row')
     ctx.assumptions += [
-        'CSV text: code points are valid Unicode scalars without NUL and BOM (the file is written as UTF-8: a surrogate '
-        'makes the writer raise UnicodeEncodeError; pandas\' C reader cuts a field at NUL; both are excluded by '
-        'CsvText.well_shaped; the real file always starts with #, so a BOM cannot lead it); Python 3.12 '
-        'csv.writer (3.13 quotes CR) and os.linesep == LF',
+        'CSV text: code points are valid Unicode scalars without NUL (a surrogate makes the writer raise UnicodeEncodeError; '
+        'pandas\' C reader cuts a field at NUL; both are excluded by CsvText.well_shaped); a text that STARTS with U+FEFF is '
+        'excluded by CsvText.well_shaped too (bom_ok: read_csv strips a leading byte order mark - driven: the table '
+        '[[BOM+id, n], [c, a]] reads back as [[id, n], [c, a]]); the real file always starts with #, so a BOM cannot lead it; '
+        'Python 3.12 csv.writer (3.13 quotes CR) and os.linesep == LF',
+        'CSV text, LOCALE: blob_to_csv opens the file with open(path, "w") and NO encoding argument, so the bytes on disk are the '
+        'locale\'s encoding of the modelled code points; the tie runs under a UTF-8 locale encoding '
+        f'(locale.getpreferredencoding(False) = {__import__("locale").getpreferredencoding(False)!r} here) and reads the file back '
+        'with the same default; under LC_ALL=C PYTHONUTF8=0 PYTHONCOERCECLOCALE=0 the encoding is ASCII and a non-ASCII node '
+        'name / cell id makes the real blob_to_csv raise UnicodeEncodeError (an environment dependence of the real code, not modelled)',
         'CSV text: the reader modelled is the TOKENIZER: read_csv is called with dtype=str, keep_default_na=False on '
         'top of the comment="#" of the example notebooks (docs/output.md names no reader).  With pandas\' defaults '
         'the labels NA / None / nan / NULL come back as NaN, 007 as 7, 1e5 as 100000.0, a column of True/False as '
